@@ -25,14 +25,13 @@ theorem mem_bufK (s : St) (b x : Nat) :
         · exact Or.inr h
   · simp [hk]
 
-theorem deleteBuf_core {ex : Option Var} {s : St} {b : Nat} (hi : Inv0 ex s) (ha : s.alive b = true)
-    (hk : s.kind b = .buf ∨ s.kind b = .pool) :
-    ∃ d, s.par b = some d ∧ Killed s (bufK s b) (deleteBuf s b) ∧ (deleteBuf s b).kids b = []
+theorem deleteBuf_core {ex : Var → Prop} {s : St} {b d : Nat} (hi : Inv00 ex s) (ha : s.alive b = true)
+    (hk : s.kind b = .buf ∨ s.kind b = .pool) (hp : s.par b = some d) (hda : s.alive d = true)
+    (hdk : s.kind d = .dev) :
+    Killed s (bufK s b) (deleteBuf s b) ∧ (deleteBuf s b).kids b = []
       ∧ b ∉ (deleteBuf s b).chGet .buf d := by
   have hkd : s.kind b ≠ .dev := by rcases hk with h | h <;> rw [h] <;> decide
   have hkm : s.kind b ≠ .mem := by rcases hk with h | h <;> rw [h] <;> decide
-  obtain ⟨d, hp, hda, hdk, _⟩ := hi.ch_par b ha hkd hkm
-  refine ⟨d, hp, ?_⟩
   have hdb : d ≠ b := by intro h; rw [h] at hdk; exact hkd hdk
   have hkids : ∀ m ∈ s.kids b, s.alive m = true ∧ s.kind m = .mem ∧ (s.ring m).Nodup :=
     fun m hm => ⟨(hi.kids_ok b m hm).1, (hi.kids_ok b m hm).2.1, hi.ring_nodup m⟩
